@@ -95,7 +95,7 @@ def run_timers(prop, tier, seed, cap=None, kcap=None):
         random.Random(seed).shuffle(behs)
         behs = behs[:cap]
     # key-reuse focused configurations: exhaustive, every final state exported
-    for kc in ("MCTimers_keysf.cfg", "MCTimers_keysv.cfg", "MCTimers_long.cfg", "MCTimers_near.cfg"):
+    for kc in ("MCTimers_keysf.cfg", "MCTimers_keysv.cfg", "MCTimers_long.cfg", "MCTimers_near.cfg", "MCTimers_sub.cfg"):
         st, tr, bad, text = _tlc_mc("MCTimers.tla", kc, "tmk-%s" % prop)
         out["states"] += st
         out["transitions"] += tr
